@@ -303,8 +303,35 @@ def holder_in_payload(variant="later-recv"):
     return {"R": R, "ops": ops, "ranks": {0: {"outs": [["out", out0]]}, 1: {"outs": [["out", out1]]}}, "mode": "plain"}
 
 
+def relay3(perm=(0, 1, 2), extra_hops=1):
+    """three ranks; rank b gets an early message A from a and, over a detour through c (extra_hops relays), a later
+    message B from c; b answers B with S, on which its last receive C depends: b has three (or more) consecutive parts,
+    and messages of a later round can arrive before or together with those of an earlier one"""
+    a, b, c = perm
+    ops = [{"src": a, "dst": b, "tag": 100, "deps": [], "use_input": True},        # A
+           {"src": a, "dst": c, "tag": 101, "deps": [], "use_input": True}]        # A2
+    last = 1
+    cur = c
+    for _h in range(extra_hops - 1):                                                # optional longer detour c -> a -> c
+        nxt = a if cur == c else c
+        ops.append({"src": cur, "dst": nxt, "tag": 100 + len(ops), "deps": [last], "use_input": False})
+        last, cur = len(ops) - 1, nxt
+    if cur != c:
+        ops.append({"src": cur, "dst": c, "tag": 100 + len(ops), "deps": [last], "use_input": False})
+        last = len(ops) - 1
+    ops.append({"src": c, "dst": b, "tag": 100 + len(ops), "deps": [last], "use_input": True})      # B
+    ib = len(ops) - 1
+    ops.append({"src": b, "dst": c, "tag": 100 + len(ops), "deps": [ib], "use_input": False})        # S
+    ops.append({"src": c, "dst": b, "tag": 100 + len(ops), "deps": [len(ops) - 1], "use_input": True})   # C
+    outs = {r: {"deps": [i for i, o in enumerate(ops) if o["dst"] == r], "use_input": True, "kind": "combine"} for r in range(3)}
+    return build_program(3, ops, outs)
+
+
 def structured(tier):
     res = []
+    for perm in ((0, 1, 2), (2, 0, 1), (1, 2, 0), (0, 2, 1)):
+        res.append((f"relay3-{''.join(map(str, perm))}", relay3(perm)))
+    res.append(("relay3-long", relay3((0, 1, 2), extra_hops=3)))
     res.append(("holder-in-payload", holder_in_payload("independent")))
     res.append(("holder-in-payload-later-recv", holder_in_payload("later-recv")))
     for K in (2, 3):
